@@ -2159,6 +2159,13 @@ func (c *Conn) handleRecordContent(
 ) (bool, packetOutcome, error) {
 	switch content := content.(type) {
 	case *protocol.ACK:
+		if prepared.header.Epoch == 0 {
+			// ACKs are only ever sent protected [RFC9147 Section-7]. An
+			// unprotected one proves nothing about what the peer received.
+			c.log.Debug("discarded unprotected ACK")
+
+			return false, packetOutcome{}, nil
+		}
 		isLatestSeqNum := prepared.markPacketAsValid()
 
 		return isLatestSeqNum, packetOutcome{
